@@ -62,25 +62,70 @@ Theorem C01_layout :
 Proof. exact layout_segments. Qed.
 Print Assumptions C01_layout.
 
-(* Decrypt accepts the documents of an independent implementation of the README: for ANY
-   manifest with a non-empty wrapped key and a 7-byte nonce prefix, ANY 32-byte file key,
-   either cipher, and EVERY read script delivering the document, Decrypt — given an unwrap
-   callback that returns the file key for (wrapped key, algorithm name, key name: the caller's,
-   else the manifest's) — returns exactly the plaintext and a clean end of stream. *)
+(* Decrypt accepts the documents of an independent implementation of the README, however that
+   implementation writes the manifest line: for ANY text [man] that the manifest parser reads
+   as a manifest m with a non-empty wrapped key and a 7-byte nonce prefix (any member order,
+   insignificant whitespace, any string escapes: the README fixes none of them and puts the MAC
+   over the bytes as written), ANY 32-byte file key, either cipher, and EVERY read script
+   delivering "header(man) ++ segments", Decrypt — given an unwrap callback that returns the
+   file key for (wrapped key, algorithm name, key name: the caller's, else the manifest's) —
+   returns exactly the plaintext and a clean end of stream. *)
 Theorem C01_accepts_spec_documents :
   forall (C : crypto), crypto_ok C ->
   forall (v : variant) (S H : nat) (unwrap : list N -> list N -> list N -> list N * bool)
-         (optkn : list N) (sc : list rd) (m : manifest) (fk p : list N),
-    0 < S -> manifest_bytes_ok m -> manifest_valid m = true ->
-    ends_eof sc = true -> data_of sc = encrypt_doc C S m fk p ->
-    length (spec_header C fk (manifest_json C m)) <= H ->
+         (optkn : list N) (sc : list rd) (man : list N) (m : manifest) (fk p : list N),
+    0 < S -> parse_manifest C man = Some m -> no_nl man -> man <> [] ->
+    manifest_valid m = true ->
+    ends_eof sc = true -> data_of sc = encrypt_doc_text C S man m fk p ->
+    length (spec_header C fk man) <= H ->
     dec_key_name optkn m <> [] ->
     unwrap (m_wfk m) (kwalg_name (m_kw m)) (dec_key_name optkn m) = (fk, false) ->
     length fk = 32 ->
     (N.of_nat (length p) <= N.of_nat S * 4294967296)%N ->
     decrypt_stream C v S H unwrap optkn sc = DecStream p SClean.
-Proof. exact decrypt_accepts_spec. Qed.
+Proof. exact decrypt_accepts_text. Qed.
 Print Assumptions C01_accepts_spec_documents.
+
+(* The parser's language contains the whole family [manifest_text sty m] of serialisations:
+   the five members in ANY order (the key-name member may be absent when the name is empty),
+   whitespace (space, tab, carriage return) at every place JSON allows it, the key name
+   escaped Go's way, minimally (solidus as \/, & < > literally) or as \u00XX — and Go's own
+   serialisation [manifest_json] is the member of that family with Go's order, no whitespace
+   and Go's escapes. *)
+Theorem C01_manifest_serialisations_parse :
+  forall (C : crypto), crypto_ok C -> forall (sty : mstyle) (m : manifest),
+    manifest_bytes_ok m ->
+    Forall (fun b => is_ws b = true) (ms_ws sty) -> NoDup (ms_order sty) ->
+    (forall f, f <> FK -> In f (ms_order sty)) -> (In FK (ms_order sty) \/ m_k m = []) ->
+    parse_manifest C (manifest_text C sty m) = Some m /\
+    no_nl (manifest_text C sty m) /\ manifest_text C sty m <> [] /\
+    manifest_text C (mkMstyle (go_order (is_nil (m_k m))) [] 0) m = manifest_json C m.
+Proof.
+  exact (fun C Hok sty m Hb Hws Hnd Hall Hk =>
+           conj (parse_manifest_text C Hok sty m Hb Hws Hnd Hall Hk)
+                (conj (manifest_text_no_nl C Hok sty m Hws)
+                      (conj (manifest_text_nonempty C sty m) (manifest_text_go C m)))).
+Qed.
+Print Assumptions C01_manifest_serialisations_parse.
+
+(* ... hence Decrypt accepts a document written in any of these styles. *)
+Theorem C01_accepts_serialisation_styles :
+  forall (C : crypto), crypto_ok C ->
+  forall (v : variant) (S H : nat) (unwrap : list N -> list N -> list N -> list N * bool)
+         (optkn : list N) (sc : list rd) (sty : mstyle) (m : manifest) (fk p : list N),
+    0 < S -> manifest_bytes_ok m -> manifest_valid m = true ->
+    Forall (fun b => is_ws b = true) (ms_ws sty) -> NoDup (ms_order sty) ->
+    (forall f, f <> FK -> In f (ms_order sty)) -> (In FK (ms_order sty) \/ m_k m = []) ->
+    ends_eof sc = true ->
+    data_of sc = encrypt_doc_text C S (manifest_text C sty m) m fk p ->
+    length (spec_header C fk (manifest_text C sty m)) <= H ->
+    dec_key_name optkn m <> [] ->
+    unwrap (m_wfk m) (kwalg_name (m_kw m)) (dec_key_name optkn m) = (fk, false) ->
+    length fk = 32 ->
+    (N.of_nat (length p) <= N.of_nat S * 4294967296)%N ->
+    decrypt_stream C v S H unwrap optkn sc = DecStream p SClean.
+Proof. exact decrypt_accepts_styles. Qed.
+Print Assumptions C01_accepts_serialisation_styles.
 
 (* Round trip, for every chunking on both sides: whatever read script sc delivers the
    plaintext to Encrypt, the stream it produces is some document d ending cleanly, and
@@ -104,6 +149,39 @@ Theorem C01_roundtrip :
                           decrypt_stream C v S H unwrap optkn sc' = DecStream (data_of sc) SClean.
 Proof. exact roundtrip. Qed.
 Print Assumptions C01_roundtrip.
+
+(* Round trip through the caller's callbacks (a key vault): Encrypt invokes the wrap callback
+   with the file key, the UN-ALIASED algorithm name and opts.KeyName — never DecryptionKeyName,
+   which only goes into the manifest; a failing callback fails Encrypt; if the unwrap callback
+   gives the file key back for the wrapped key under the name Decrypt uses (the caller's, else
+   the manifest's), the plaintext comes back, for every chunking on both sides. *)
+Theorem C01_roundtrip_callbacks :
+  forall (C : crypto), crypto_ok C ->
+  forall (v : variant) (S H : nat) (o : enc_opts) (fk np wfk : list N) (sc : list rd)
+         (wrap : list N -> list N -> list N -> option (list N))
+         (unwrap : list N -> list N -> list N -> list N * bool) (optkn : list N) (m : manifest),
+    0 < S -> length fk = 32 -> length np = 7 -> bytes_ok np = true ->
+    spec_manifest o np wfk = Some m ->
+    wrap fk (kwalg_name (m_kw m)) (eo_keyname o) = Some wfk ->
+    wfk <> [] -> bytes_ok wfk = true ->
+    length (spec_header C fk (manifest_json C m)) <= H ->
+    ends_eof sc = true ->
+    (N.of_nat (length (data_of sc)) <= N.of_nat S * 4294967296)%N ->
+    dec_key_name optkn m <> [] ->
+    unwrap wfk (kwalg_name (m_kw m)) (dec_key_name optkn m) = (fk, false) ->
+    exists d, encrypt_stream_w C S H o fk np wrap sc = EncStream d SClean /\
+              forall sc', ends_eof sc' = true -> data_of sc' = d ->
+                          decrypt_stream C v S H unwrap optkn sc' = DecStream (data_of sc) SClean.
+Proof. exact roundtrip_callbacks. Qed.
+Print Assumptions C01_roundtrip_callbacks.
+
+Theorem C01_wrap_failure_fails_encrypt :
+  forall (C : crypto) (S H : nat) (o : enc_opts) (fk np : list N)
+         (wrap : list N -> list N -> list N -> option (list N)) (sc : list rd) (alg kn : list N),
+    encrypt_wrap_args o = Some (alg, kn) -> wrap fk alg kn = None ->
+    encrypt_stream_w C S H o fk np wrap sc = EncCallError.
+Proof. exact wrap_failure_is_encrypt_failure. Qed.
+Print Assumptions C01_wrap_failure_fails_encrypt.
 
 (* Key-name options: the manifest Encrypt builds is the documented one ([spec_manifest]); its
    key name is nothing with OmitKeyName, else DecryptionKeyName when given, else KeyName;
